@@ -164,7 +164,10 @@ def gaussian_syn_likelihood_ghurye_olkin(ssx, ssy):
 
     try:
         _, logdet_sigma = np.linalg.slogdet(Sigma)
-        _, logdet_psi = np.linalg.slogdet(psi)
+        sign_psi, logdet_psi = np.linalg.slogdet(psi)
+        if sign_psi <= 0:
+            # The estimator is zero unless psi is positive definite
+            return np.array([-math.inf])
         A = wcon(d, n-2) - wcon(d, n-1) - 0.5*d*math.log(1 - 1/n)
         B = -0.5 * (n-d-2) * (d * math.log(n-1) + logdet_sigma)
         C = 0.5 * (n-d-3) * logdet_psi
